@@ -278,8 +278,9 @@ __strpd_card(struct strpd_s *d, const char *sp, struct dt_spec_s s, char **ep)
 	case DT_SPFL_N_DCNT_WEEK:
 		/* ymcw mode? */
 		d->w = padstrtoi_lim(sp, &sp, 0, GREG_DAYS_P_WEEK);
-		/* fix up d->w right away */
+		/* fix up d->w right away, Sunday may be written 0 */
 		res = 0 - (d->w < 0);
+		d->w = d->w ?: DT_SUNDAY;
 		break;
 	case DT_SPFL_N_WCNT_MON:
 		/* ymcw mode? */
